@@ -103,6 +103,26 @@ def pipe_lists(n: int, pipes: list, combos: list) -> list:
     return res
 
 
+def retag_lists(n: int, firsts: list, seconds: list, combos: list) -> list:
+    """a(bsa) > retag > b(bsb): the second stage meets blocks whose
+    operations carry other parameters than the circuits stored inside their
+    CircuitGates (what instantiation leaves behind)."""
+    res = []
+    for a in firsts:
+        for b in seconds:
+            for bsa, bsb in combos:
+                if (a == 'single' and bsa != 2) or bsa > n or bsb > n:
+                    continue
+                if b == 'extend':
+                    res.append([[a, bsa], ['retag', 0], ['extend', bsb]])
+                elif b == 'single':
+                    if bsb == 2:
+                        res.append([[a, bsa], ['retag', 0], ['single', 2]])
+                else:
+                    res.append([[a, bsa], ['retag', 0], [b, bsb]])
+    return res
+
+
 def brickwork(n: int, layers: int) -> list:
     ops: list = []
     for k in range(layers):
@@ -274,7 +294,23 @@ def plan(ctx: Ctx) -> list:
         items += _items('blocked-input-pseudo', 2, sequences(2, 3, 'pseudo'),
                         pipe_lists(2, [PIPES[0], PIPES[3], PIPES[9]], sq),
                         seed)
+        items += _items('retagged-blocks', 3, sequences(3, 3, 'gates'),
+                        retag_lists(3, ['quick', 'single'],
+                                    ['extend', 'quick', 'scan'],
+                                    [(2, 3), (2, 2)]), seed)
+        items += _items('retagged-blocks', 4, sequences(4, 2, 'gates'),
+                        retag_lists(4, ['quick', 'single', 'scan'],
+                                    ['extend', 'quick', 'scan', 'cluster',
+                                     'greedy', 'single', 'gtqcp', 'tdag'],
+                                    [(2, 3), (2, 4), (3, 4)]), seed)
     else:
+        for n, ln in ((3, 3), (4, 3)):
+            items += _items('retagged-blocks', n, sequences(n, ln, 'gates'),
+                            retag_lists(n, ['quick', 'single', 'scan'],
+                                        ['extend', 'quick', 'scan', 'cluster',
+                                         'greedy', 'single', 'gtqcp', 'tdag'],
+                                        [(2, 2), (2, 3), (2, 4), (3, 3),
+                                         (3, 4)]), seed)
         sq4 = sq + [(2, 4), (4, 2), (3, 4), (4, 3)]
         items += _items('blocked-input', 3, sequences(3, 3, 'gates'),
                         pipe_lists(3, PIPES, sq), seed)
